@@ -195,7 +195,7 @@ func runC03(c *fw.Case) {
 	c.Class(fmt.Sprintf("%s upUnc=%v srvComp=%v srvSkip=%v stack=%d", names[e.backend], e.upUnc, e.srvComp, e.srvSkip, e.stack))
 	c.Note("backend=%s upstream-uncompressed=%v server-compressed=%v server-skipverify=%v stack=%d chunk=%d bytes stored=%d bytes", names[e.backend], e.upUnc, e.srvComp, e.srvSkip, e.stack, len(tData), len(good))
 
-	site := names[e.backend] + fmt.Sprintf("/stack%d", e.stack)
+	site := names[e.backend]
 	// probe: fetch through a fresh stack and judge the result
 	probe := func(what string) bool {
 		s, _, err := e.build()
@@ -227,7 +227,7 @@ func runC03(c *fw.Case) {
 			return true
 		}
 		if desync.Digest.Sum(b) != tid {
-			c.Violate("corrupt-chunk-delivered", site, "stored object %s; GetChunk returned %d bytes that do not hash to the requested ID without an error", what, len(b))
+			c.Violate("corrupt-chunk-delivered", site, "stack %d: stored object %s; GetChunk returned %d bytes that do not hash to the requested ID without an error", e.stack, what, len(b))
 			return false
 		}
 		c.Probe("still-valid")
